@@ -105,11 +105,12 @@ TRet == /\ IsEvent("ret")
 TFinal == /\ IsEvent("final")
           /\ \A t \in T : Done(t)
           /\ ~Has(Ev, "rooterr")
-          /\ ToSet(Ev.f1) = node["f1"] /\ ToSet(Ev.f2) = node["f2"]
-          /\ ToSet(Ev.root_f1) = node["f1"] /\ ToSet(Ev.root_f2) = node["f2"]
+          /\ ToSet(Ev.f1) = node["f1"] /\ ToSet(Ev.f2) = node["f2"] /\ ToSet(Ev.f3) = node["f3"]
+          /\ ToSet(Ev.root_f1) = node["f1"] /\ ToSet(Ev.root_f2) = node["f2"] /\ ToSet(Ev.root_f3) = node["f3"]
           /\ \/ ~CheckAcked
              \/ "Dev_C20_SetAttrLostUpdate" \in rdev     \* the as-built stale assignment ran in this run
-             \/ acked["f1"] \subseteq ToSet(Ev.root_f1) /\ acked["f2"] \subseteq ToSet(Ev.root_f2)
+             \/ /\ acked["f1"] \subseteq ToSet(Ev.root_f1) /\ acked["f2"] \subseteq ToSet(Ev.root_f2)
+                /\ acked["f3"] \subseteq ToSet(Ev.root_f3)
           /\ UNCHANGED <<vars, req, dev, rdev>>
 
 \* a watchdog hang of the real goroutines is never a behaviour of the ideal programs; it is
